@@ -72,6 +72,7 @@ impl StateMachine<'_> {
             || self.painter.plus_lines.len() > self.config.line_buffer_size
         {
             self.painter.paint_buffered_minus_and_plus_lines();
+            self.painter.run_overflowed = true;
         }
         if let State::HunkHeader(_, parsed_hunk_header, line, raw_line) = &self.state.clone() {
             self.emit_hunk_header_line(parsed_hunk_header, line, raw_line)?;
